@@ -3,51 +3,72 @@
 (* C61, Rotosolve / Rotoselect: "find the exact minimum of each            *)
 (* single-parameter sinusoidal sub-problem", in integer arithmetic.        *)
 (*                                                                         *)
-(* Angles are lattice integers in units of pi/16 (2 pi = 32).  Objective   *)
-(* over P scalar parameters (flattened argument entries), generator        *)
-(* choice gen[d] in 1..3 (Rotosolve always uses generator 1):              *)
-(*   F(x, gen) = sum_d ( A[gen[d]][d] * s_d + C0[gen[d]][d] )              *)
-(*               + sum_{d<e} B[d][e] * s_d * s_e ,                         *)
-(*   s_d = sin( fq[d] * x[d] + ph[gen[d]][d] )                             *)
+(* Objective over P scalar parameters (flattened argument entries),        *)
+(* generator choice gen[d] in 1..3 (Rotosolve always uses generator 1):    *)
+(*   F(theta, gen) = sum_d ( A[gen[d]][d] * s_d + C0[gen[d]][d] )          *)
+(*                   + sum_{d<e} B[d][e] * s_d * s_e ,                     *)
+(*   s_d = sin( fq[d] * theta[d] + ph[gen[d]][d] )                         *)
+(* with a RATIONAL positive frequency fq[d] = fn[d] / fd[d] per parameter  *)
+(* (integers, and non-integers below and above 1: what Rotosolve accepts   *)
+(* through `spectra`) and lattice phases ph in units of pi/12.             *)
+(*                                                                         *)
+(* Units.  Parameter d is a lattice integer x[d] in units of pi/(12 fn[d]);*)
+(* its sine argument fq*theta + ph = x[d] + fd[d]*ph is then an integer in *)
+(* units of pi/(12 fd[d]): a full turn is Per = 24 fd, a quarter turn      *)
+(* Qt = 6 fd, and one period of theta (2 pi / fq) is also 24 fd x-units.   *)
+(*                                                                         *)
 (* Every parameter enters through ONE sinusoid, so each one-parameter      *)
 (* restriction is a single sinusoid  a * sin(fq*theta + ph) + const  with  *)
 (*   a = A[g][d] + sum_e B[d][e] s_e .                                     *)
 (* Its exact minima are the theta with sin(fq*theta + ph) = -sign(a), i.e. *)
-(*   fq * theta + ph = -8 sign(a)  (mod 32)                  [Minimiser]   *)
-(* The harness starts every parameter where its sine is -1, 0 or 1 and     *)
-(* picks A odd, B even: then a is never 0, every s_d stays in {-1, 0, 1}   *)
-(* and F is an integer.  F is affine in each s_d, so a point is a minimum  *)
-(* over ALL theta iff it is no worse than s_d = -1 and s_d = +1            *)
-(* (SubMin, checked by TLC on the model after every sub-step).             *)
+(*   x + fd*ph = -Qt sign(a)  (mod Per)                      [Minimiser]   *)
+(* and every one of them is a lattice integer.                             *)
+(* The harness starts every parameter where its sine is rational:          *)
+(* -1, -1/2, 0, 1/2 or 1 (argument a multiple of pi/2, or pi/6 off a       *)
+(* multiple of pi), and picks A odd, B a multiple of 4: then a is an odd   *)
+(* integer (never 0), every sine stays in {-1, -1/2, 0, 1/2, 1} and 4 F is *)
+(* an integer.  The spec keeps S = 2 s (integers -2..2), F4 = 4 F and      *)
+(* Amp2 = 2 a.  F is affine in each s_d, so a point is a minimum over ALL  *)
+(* theta iff it is no worse than s_d = -1 and s_d = +1 (SubMin, checked by *)
+(* TLC on the model after every sub-step).                                 *)
 (*                                                                         *)
-(* pr = [kind, P, tr, fq, A, ph, C0, B, k0, g0]:  tr[d] trainable,         *)
-(*   k0[d] in {0, 8, 16, 24} the initial sine argument (x0 derived).       *)
+(* pr = [kind, P, tr, fn, fd, A, ph, C0, B, k0, g0]:  tr[d] trainable,     *)
+(*   k0[d] in {0,1,3,5,6,7,9,11}: the initial sine argument in units of    *)
+(*   pi/6 (x0 derived).                                                    *)
 (***************************************************************************)
 EXTENDS Integers, Sequences, FiniteSets, TLC
 
 Sgn(a) == IF a > 0 THEN 1 ELSE IF a < 0 THEN -1 ELSE 0
 AbsI(a) == IF a < 0 THEN -a ELSE a
-\* exact sine of a lattice angle that is a multiple of pi/2; 9 = not exact
-SinL(k) == LET r == k % 32 IN IF r = 0 \/ r = 16 THEN 0 ELSE IF r = 8 THEN 1 ELSE IF r = 24 THEN -1 ELSE 9
-Arg(pr, x, g, d) == pr.fq[d] * x + pr.ph[g][d]
+Per(pr, d) == 24 * pr.fd[d]
+Qt(pr, d) == 6 * pr.fd[d]
+\* TWICE the sine of an argument k in units of pi/(12 fd), where that is rational; 9 = not exact
+Sin2(k, fd) ==
+  LET r == k % (24 * fd) IN
+  IF r % (2 * fd) # 0 THEN 9
+  ELSE LET m == r \div (2 * fd) IN       \* the argument is m * pi/6
+       IF m \in {0, 6} THEN 0 ELSE IF m \in {1, 5} THEN 1 ELSE IF m = 3 THEN 2
+       ELSE IF m \in {7, 11} THEN -1 ELSE IF m = 9 THEN -2 ELSE 9
+Arg(pr, x, g, d) == x + pr.fd[d] * pr.ph[g][d]
 
-X0(pr) == [d \in 1..pr.P |-> (pr.k0[d] - pr.ph[pr.g0[d]][d]) \div pr.fq[d]]
-S0(pr) == [d \in 1..pr.P |-> SinL(pr.k0[d])]
-WellPosed(pr) == \A d \in 1..pr.P : pr.fq[d] * X0(pr)[d] + pr.ph[pr.g0[d]][d] = pr.k0[d]
+X0(pr) == [d \in 1..pr.P |-> 2 * pr.fd[d] * pr.k0[d] - pr.fd[d] * pr.ph[pr.g0[d]][d]]
+S0(pr) == [d \in 1..pr.P |-> Sin2(2 * pr.fd[d] * pr.k0[d], pr.fd[d])]
+WellPosed(pr) == \A d \in 1..pr.P : /\ pr.fn[d] >= 1 /\ pr.fd[d] >= 1 /\ S0(pr)[d] # 9
+                                    /\ Arg(pr, X0(pr)[d], pr.g0[d], d) = 2 * pr.fd[d] * pr.k0[d]
 
 RECURSIVE SumTo(_, _)
 SumTo(f, n) == IF n = 0 THEN 0 ELSE SumTo(f, n - 1) + f[n]
-\* F for sines S and generators gen
+\* 4 F for doubled sines S and generators gen
 F(pr, S, gen) ==
-  SumTo([d \in 1..pr.P |-> pr.A[gen[d]][d] * S[d] + pr.C0[gen[d]][d]
+  SumTo([d \in 1..pr.P |-> 2 * pr.A[gen[d]][d] * S[d] + 4 * pr.C0[gen[d]][d]
                            + SumTo([e \in 1..pr.P |-> IF e > d THEN pr.B[d][e] * S[d] * S[e] ELSE 0], pr.P)], pr.P)
-\* amplitude of the restriction to parameter d under generator g
-Amp(pr, S, g, d) == pr.A[g][d] + SumTo([e \in 1..pr.P |-> IF e # d THEN pr.B[d][e] * S[e] ELSE 0], pr.P)
-\* minimal value of the restriction to parameter d under generator g
+\* twice the amplitude of the restriction to parameter d under generator g
+Amp(pr, S, g, d) == 2 * pr.A[g][d] + SumTo([e \in 1..pr.P |-> IF e # d THEN pr.B[d][e] * S[e] ELSE 0], pr.P)
+\* minimal value (times 4) of the restriction to parameter d under generator g
 SubMinVal(pr, S, gen, g, d) ==
   LET a == Amp(pr, S, g, d) IN
-  F(pr, [S EXCEPT ![d] = -Sgn(a)], [gen EXCEPT ![d] = g])
-Minimiser(pr, g, d, a, theta) == (Arg(pr, theta, g, d) + 8 * Sgn(a)) % 32 = 0
+  F(pr, [S EXCEPT ![d] = -2 * Sgn(a)], [gen EXCEPT ![d] = g])
+Minimiser(pr, g, d, a, theta) == (Arg(pr, theta, g, d) + Qt(pr, d) * Sgn(a)) % Per(pr, d) = 0
 Gens(pr) == IF pr.kind = "rotoselect" THEN 1..3 ELSE {1}
 \* the best value over the generators on offer for parameter d (Rotosolve: the current generator only)
 BestVal(pr, S, gen, d) ==
@@ -60,11 +81,11 @@ PickGen(pr, S, gen, d) ==
        CHOOSE g \in 1..3 : SubMinVal(pr, S, gen, g, d) = best /\ \A h \in 1..3 : (h > g => SubMinVal(pr, S, gen, h, d) # best)
 Tie(pr, S, gen, d) == pr.kind = "rotoselect" /\
   Cardinality({g \in 1..3 : SubMinVal(pr, S, gen, g, d) = BestVal(pr, S, gen, d)}) > 1
-\* the representative the documented range gives: Rotosolve adds a shift in (-pi/fq, pi/fq] to the old value,
-\* Rotoselect returns the angle in (-pi, pi]
+\* the representative the documented range gives: Rotosolve adds a shift in (-pi/fq, pi/fq] (half a period either way) to the
+\* old value, Rotoselect (frequency 1) returns the angle in (-pi, pi]
 Representative(pr, g, d, a, old) ==
   LET base == IF pr.kind = "rotoselect" THEN 0 ELSE old
-      r == (0 - 8 * Sgn(a) - Arg(pr, base, g, d)) % 32
-      sf == IF r <= 16 THEN r ELSE r - 32
-  IN base + sf \div pr.fq[d]
+      r == (0 - Qt(pr, d) * Sgn(a) - Arg(pr, base, g, d)) % Per(pr, d)
+      sf == IF 2 * r <= Per(pr, d) THEN r ELSE r - Per(pr, d)
+  IN base + sf
 =============================================================================
